@@ -153,6 +153,20 @@ def check_basis(case):
             for cls in core_strategies:
                 if cls(img).applies() != (cls.__name__ in core) or cls(iter(img)).applies() != (cls.__name__ in core):
                     return BAD("applies_" + cls.__name__, {"symmetry": g, "basis": [list(p) for p in img], "got": cls(img).applies(), "want": cls.__name__ in core})
+    # replayable mini-history: the same class given with a redundant element (a one-point
+    # extension of a basis element, usually not of the prescribed form) before and after the
+    # original basis - the answer must depend on the basis as given, not on earlier queries
+    first = perms[0]
+    ext = tuple(v + 1 for v in first) + (0,)  # new minimum at the end: contains `first`
+    if len(ext) <= 6:
+        red = perms + [ext]
+        rcore, _ = oracle_core(red)
+        rins = o_rightmost(red) or o_maximum(red)
+        want_red = sorted(rcore | ({"InsertionEncodingStrategy"} if rins else set()))
+        for which, basis_now, want_now in (("redundant", red, want_red), ("original_after_redundant", perms, want_fast), ("redundant_again", red, want_red)):
+            got = _names(find_strategies([Perm(p) for p in basis_now], long_runnning=False))
+            if got != want_now:
+                return BAD("find_strategies_history", {"which": which, "basis": [list(p) for p in basis_now], "got": got, "want": want_now})
     if slow:
         for g in ("id", "rot", "i") if case.get("slow_images", True) else ("id",):
             img = [Perm(ref.sym_perm(g, p)) for p in perms]
